@@ -14,6 +14,7 @@ Item selectors (strings):
     impl TRAIT for TYPE::fn NAME one method out of a trait impl
     mod NAME                     a whole inline module
     consts PREFIX                every const item whose name starts with PREFIX
+    stmt REGEX                   the single statement (to its terminating `;`) where REGEX matches
 """
 import hashlib
 import re
@@ -236,11 +237,25 @@ def _find_impls(src, code, header):
             continue
         hdr = code[m.end():ob]
         hdr = re.sub(r'\bwhere\b.*', '', hdr, flags=re.S)
+        # the impl's own generic parameter list `impl<T: ..>` is dropped first
+        hdr = hdr.strip()
+        if hdr.startswith('<'):
+            depth = 0
+            for k, ch in enumerate(hdr):
+                if ch == '<':
+                    depth += 1
+                elif ch == '>':
+                    depth -= 1
+                    if depth == 0:
+                        hdr = hdr[k + 1:]
+                        break
+        full = _norm(hdr)
         h = _strip_generics(hdr)
         h = re.sub(r"'\w+", '', h)
         h = re.sub(r'&\s*(mut\s+)?', '', h)
         h = _norm(h)
-        if h == _norm(header):
+        want = _norm(header)
+        if full == want or (('<' not in want) and h == want):
             s = _item_start(src, code, m.start())
             e = _match_brace(code, ob) + 1
             res.append((s, e, ob))
@@ -287,6 +302,30 @@ class Source:
             if not impls:
                 raise SliceError(f'{self.path}: impl `{sel[5:]}` not found')
             return [src[s:e] for (s, e, _) in impls]
+        m = re.match(r'stmt\s+(.+)$', sel, re.S)
+        if m:
+            # one statement: from the start of the line where REGEX matches (in code, not in
+            # comments/strings) to the first `;` at nesting depth 0 after it
+            mm = re.search(m.group(1), code)
+            if not mm:
+                raise SliceError(f'{self.path}: statement /{m.group(1)}/ not found')
+            if len(re.findall(m.group(1), code)) != 1:
+                raise SliceError(f'{self.path}: statement /{m.group(1)}/ is ambiguous')
+            s0 = src.rfind('\n', 0, mm.start()) + 1
+            depth = 0
+            j = mm.start()
+            while j < len(code):
+                ch = code[j]
+                if ch in '([{':
+                    depth += 1
+                elif ch in ')]}':
+                    depth -= 1
+                    if depth < 0:
+                        raise SliceError('statement end not found')
+                elif ch == ';' and depth == 0:
+                    return [src[s0:j + 1]]
+                j += 1
+            raise SliceError('statement end not found')
         m = re.match(r'consts\s+(\w+)$', sel)
         if m:
             # every `const <PREFIX>...` item, in source order
